@@ -1,6 +1,6 @@
 (* C13 — list lemmas for the TrackerList operations (take_while/drop_while, set_nth/swap_nth,
    index_of, sortedness by group). No model semantics here. *)
-From Coq Require Import List ZArith Bool Lia Arith.
+From Coq Require Import List ZArith Bool Lia Arith Permutation.
 From LTV.C13 Require Import Model.
 Import ListNotations.
 
@@ -216,4 +216,70 @@ Proof.
   { inversion Hall; subst. apply Forall_app. split; [assumption | constructor; [assumption | constructor]]. }
   rewrite <- map_app. rewrite (Hg (tl ++ [h]) Hall'). rewrite app_length. simpl length.
   replace (length tl + 1)%nat with (S (length tl)) by lia. reflexivity.
+Qed.
+
+(* ------------------------------------------------------------------ permutations (tracker identities) *)
+
+Lemma set_nth_perm {A} (l : list A) : forall i a b, nth_error l i = Some a -> Permutation (b :: l) (a :: set_nth i b l).
+Proof.
+  induction l as [| y r IH]; intros i a b H; [destruct i; discriminate |].
+  destruct i; simpl in *.
+  - inversion H; subst. apply perm_swap.
+  - eapply Permutation_trans; [apply perm_swap |].
+    eapply Permutation_trans; [apply perm_skip, (IH i a b H) |]. apply perm_swap.
+Qed.
+
+Lemma swap_nth_perm {A} i j (l : list A) : Permutation (swap_nth i j l) l.
+Proof.
+  unfold swap_nth. destruct (nth_error l i) as [a |] eqn:Hi; [| apply Permutation_refl].
+  destruct (nth_error l j) as [b |] eqn:Hj; [| apply Permutation_refl].
+  pose proof (set_nth_perm l i a b Hi) as H1.
+  assert (Hj' : nth_error (set_nth i b l) j = Some b).
+  { destruct (Nat.eq_dec i j) as [E | E]; [subst; eapply nth_error_set_nth_same; eauto | rewrite nth_error_set_nth_other; assumption]. }
+  pose proof (set_nth_perm (set_nth i b l) j b a Hj') as H2.
+  apply Permutation_cons_inv with (a := b).
+  eapply Permutation_trans; [apply Permutation_sym, H2 |]. apply Permutation_sym. exact H1.
+Qed.
+
+Lemma promote_perm id l : Permutation (promote id l) l.
+Proof. unfold promote. destruct (find_id l id); [apply swap_nth_perm | apply Permutation_refl]. Qed.
+
+Lemma cycle_perm g l : Permutation (cycle_group g l) l.
+Proof.
+  unfold cycle_group.
+  set (p := fun t => negb (Nat.leb g (t_group t))).
+  destruct (drop_while p l) as [| f rest] eqn:Hd; [apply Permutation_refl |].
+  destruct (Nat.eqb (t_group f) g); [| apply Permutation_refl].
+  set (q := fun t => Nat.eqb (t_group t) g).
+  destruct (take_while q (f :: rest)) as [| h tl] eqn:Ht; [apply Permutation_refl |].
+  rewrite <- (take_drop p l) at 2. rewrite Hd. rewrite <- (take_drop q (f :: rest)) at 2. rewrite Ht.
+  apply Permutation_app_head. apply Permutation_app_tail. apply Permutation_sym, Permutation_cons_append.
+Qed.
+
+Lemma insert_perm t l : Permutation (insert_tracker t l) (t :: l).
+Proof.
+  unfold insert_tracker. rewrite <- (take_drop (fun x => Nat.ltb (t_group x) (S (t_group t))) l) at 3.
+  apply Permutation_sym, Permutation_middle.
+Qed.
+
+Lemma insert_all_ids groups : forall id l,
+  NoDup (map t_id l) -> Forall (fun x => (t_id x < id)%nat) l ->
+  NoDup (map t_id (insert_all id groups l)).
+Proof.
+  induction groups as [| g r IH]; intros id l Hn Hl; simpl; [assumption |].
+  apply IH.
+  - eapply Permutation_NoDup; [apply Permutation_sym, Permutation_map, insert_perm |]. simpl.
+    constructor; [| assumption]. intros Hin. apply in_map_iff in Hin. destruct Hin as [x [E Hx]].
+    rewrite Forall_forall in Hl. specialize (Hl x Hx). lia.
+  - rewrite Forall_forall in *. intros x Hx. apply insert_in in Hx. destruct Hx as [E | Hx]; [subst; simpl; lia |].
+    specialize (Hl x Hx). lia.
+Qed.
+
+Lemma find_id_unique l t : NoDup (map t_id l) -> In t l -> find_id l (t_id t) = Some t.
+Proof.
+  unfold find_id. induction l as [| x r IH]; intros Hn Hin; [contradiction |]. simpl.
+  inversion Hn as [| ? ? Hx Hr]; subst. destruct Hin as [E | Hin].
+  - subst. rewrite Nat.eqb_refl. reflexivity.
+  - destruct (Nat.eqb (t_id x) (t_id t)) eqn:E; [| auto].
+    apply Nat.eqb_eq in E. exfalso. apply Hx. rewrite E. apply in_map. assumption.
 Qed.
